@@ -10,7 +10,11 @@
 //	            replayed on a FRESH real sender behind a scripted ot.IO carrying
 //	            the altered transcript; a sample also live (real receiver and
 //	            sender over ot.Pipe, tampering ot.IO wrapper).  Op lines for the
-//	            Lean model + implementation-side oracle.
+//	            Lean model + implementation-side oracle.  For EVERY session the
+//	            challenge coefficients are recovered from the real receiver
+//	            (chi.go), compared with the model's (op `chi`), searched for
+//	            linear relations, and every dependent row set found is turned
+//	            into multi-row alterations of one column (classes dep-*).
 //
 // Oracle (independent of the model): an accepted run must have outputs with
 // recv_i = sent_i xor choice_i*Delta for the receiver's ORIGINAL choices, and
@@ -165,7 +169,7 @@ func (s *session) adaptive(chi []ot.Label, p pos) fault {
 	return f
 }
 
-func (s *session) genFaults(r *hxlib.Rng, exhaustive bool, sample int) []fault {
+func (s *session) genFaults(r *hxlib.Rng, rd *hxlib.Rng, ci *chiInfo, exhaustive bool, sample int) []fault {
 	var fs []fault
 	add := func(f fault) { fs = append(fs, f) }
 	add(fault{class: "none", full: true})
@@ -304,6 +308,9 @@ func (s *session) genFaults(r *hxlib.Rng, exhaustive bool, sample int) []fault {
 	}
 	// chi-aware alterations (KNOWN FINDING when Delta selects the column)
 	chi := chiStream(s.labels[0], s.n+checkRows)
+	if ci.err == "" && ci.consistent {
+		chi = ci.chi // what the real code uses, recovered from its behaviour
+	}
 	na := 12
 	if exhaustive {
 		na = 64
@@ -336,12 +343,15 @@ func (s *session) genFaults(r *hxlib.Rng, exhaustive bool, sample int) []fault {
 			marked[fs[i].class]++
 		}
 	}
+	if ci.err == "" {
+		fs = append(fs, s.depFaults(rd, ci)...)
+	}
 	return fs
 }
 
 // lightFaults: a few sampled faults for the sessions of the size sweep
 // (multi-chunk payloads, 1024-row challenge blocks).
-func (s *session) lightFaults(r *hxlib.Rng) []fault {
+func (s *session) lightFaults(r *hxlib.Rng, rd *hxlib.Rng, ci *chiInfo) []fault {
 	var fs []fault
 	fs = append(fs, fault{class: "none"})
 	var sel, unsel = -1, -1
@@ -385,12 +395,18 @@ func (s *session) lightFaults(r *hxlib.Rng) []fault {
 	if s.n <= 130 && len(fs) > 1 {
 		fs[1].full = true
 	}
+	if ci.err == "" {
+		fs = append(fs, s.depFaults(rd, ci)...)
+	}
 	return fs
 }
 
 // ---------------------------------------------------------------- oracle
 
-var knownReported int
+// classes of the known findings of this property: at most two failures of each
+// are kept (the list of kept failures is short)
+var knownClasses = map[string]bool{"adaptive-chi-aware": true, "dep-generic": true}
+var knownReported = map[string]int{}
 
 // effective: matrix bits altered an odd number of times in a column selected
 // by Delta and a row that is part of the matrix (not padding).
@@ -465,10 +481,16 @@ func (s *session) judge(o *hxlib.Out, seed uint64, f fault, out outcome, how str
 		"fault": clipS(f.spec(), 400), "choices": s.ckind, "delta": s.delta.String(),
 		"selected_bits_altered": eff, "outputs_correlated": okc, "first_bad_output": bad,
 		"replay": fmt.Sprintf("hx c15 sess -seed %d -only %d  (fault %s)", seed, s.idx, clipS(f.spec(), 120))}
+	if f.note != "" {
+		detail["dependency"] = f.note
+	}
 	if f.class == "adaptive-chi-aware" {
 		o.Count("adaptive_accepted")
-		knownReported++
-		if knownReported > 2 {
+	}
+	if knownClasses[f.class] {
+		o.Count("known_class_accepted")
+		knownReported[f.class]++
+		if knownReported[f.class] > 2 {
 			o.Counters["oracle_fail"]++
 			return
 		}
@@ -571,11 +593,39 @@ func sessMode(args []string) int {
 			o.Fail("c15-wire-shape", map[string]any{"session": idx, "n": pl.n, "seed": cf.Seed, "check_rows": crow,
 				"labels": len(s.labels), "payload_rows": s.payloadRows(), "replay": replay})
 		}
+		// the challenge coefficients of this session, recovered from the real
+		// receiver's behaviour, and the linear relations among them
+		rd := hxlib.NewRng(cf.Seed*0x9E37 + uint64(idx) + 77)
+		ci := s.recoverChi()
+		if ci.err != "" || !ci.consistent {
+			o.Count("chi_recovery_failed")
+			if ci.err == "" {
+				ci.err = "recovered coefficients do not explain the honest checksum x"
+			}
+			o.Sample(map[string]any{"session": idx, "n": pl.n, "chi_recovery": ci.err})
+		} else {
+			o.Count("chi_recovered")
+			o.CountN("chi_rows_recovered", len(ci.chi))
+			s.analyse(rd, ci)
+			if ci.distinct {
+				o.Count("chi_distinct")
+			}
+			if ci.rank == 128 {
+				o.Count("chi_rank_128")
+			}
+			for _, d := range ci.structural {
+				o.Count("chi_relation_" + d.kind)
+			}
+			if len(ci.generic) > 0 {
+				o.Count("chi_generic_dependency_found")
+			}
+		}
+		o.Op(s.chiOp(), ci.result())
 		var faults []fault
 		if pl.faults {
-			faults = s.genFaults(r, pl.exhaustive, cf.N)
+			faults = s.genFaults(r, rd, ci, pl.exhaustive, cf.N)
 		} else {
-			faults = s.lightFaults(r)
+			faults = s.lightFaults(r, rd, ci)
 		}
 		// scripted replays in parallel (each on a fresh real sender)
 		res := make([]outcome, len(faults))
@@ -626,6 +676,23 @@ func sessMode(args []string) int {
 					"live_problem": bad, "live_err": lo.err, "replay": replay})
 			}
 			s.judge(o, cf.Seed, faults[i], lo, "live")
+		}
+		// every class of dependent-rows alteration once live as well
+		liveSeen := map[string]bool{}
+		for i, f := range faults {
+			if !strings.HasPrefix(f.class, "dep-") || liveSeen[f.class] {
+				continue
+			}
+			liveSeen[f.class] = true
+			lo, _, bad := s.runLive(f)
+			o.Count("faults_live")
+			o.Count("faults_live_dep")
+			if bad != "" || lo.str(s.sent) != strs[i] {
+				o.Fail("c15-live-vs-scripted", map[string]any{"session": idx, "n": pl.n, "seed": cf.Seed,
+					"fault": clipS(f.spec(), 300), "live": clipS(lo.str(s.sent), 80), "scripted": clipS(strs[i], 80),
+					"live_problem": bad, "live_err": lo.err, "replay": replay})
+			}
+			s.judge(o, cf.Seed, f, lo, "live")
 		}
 		// op lines: at most 2048 faults per line
 		const per = 2048
